@@ -18,7 +18,17 @@ func Evaluate(prop string, r *Result) ([]Violation, bool) {
 	if f == nil {
 		return nil, false
 	}
-	vs, nt := f(r)
+	// What the instances do while the harness tears the execution down (root context
+	// cancelled, everything in flight answered with "connection closed") is not part of
+	// the execution: the oracles see the trace up to and including the teardown marker.
+	view := *r
+	for i, e := range r.Trace {
+		if e.K == "teardown" {
+			view.Trace = r.Trace[:i+1]
+			break
+		}
+	}
+	vs, nt := f(&view)
 	for i := range vs {
 		vs[i].Prop = prop
 	}
